@@ -3,9 +3,10 @@ import Verif.Driver.SoundClass
 import Verif.Driver.Cluster
 import Verif.Driver.TreeDist
 import Verif.Driver.Heap
+import Verif.Driver.Cache
 open Verif.Driver
 
-def handlers : List (List (List String) → Option String) := [handleAlign, handleSC, handleCluster, handleTree, handleHeap]
+def handlers : List (List (List String) → Option String) := [handleAlign, handleSC, handleCluster, handleTree, handleHeap, handleCache]
 
 def dispatch (line : String) : String :=
   let fs := fields line
